@@ -345,6 +345,37 @@ fn gen_intern(r: &mut Rng, cases: u64, out: &mut dyn std::io::Write) {
     }
 }
 
+/// natural-hash families: many distinct values per revision so that every shard fills up and
+/// reclaims slots for values whose hash differs from the old occupant's; recently interned values
+/// are asked again (canonicity: same value, same handle) right after a reclamation wave
+fn gen_intern_nat(r: &mut Rng, cases: u64, out: &mut dyn std::io::Write) {
+    for _ in 0..cases {
+        writeln!(out, "new {}", ["n1", "n1", "n2"][r.usize(3)]).unwrap();
+        let mut cur = 1;
+        let pool = 200 + r.below(600);
+        let mut recent: Vec<u64> = vec![];
+        for _ in 0..(4 + r.below(5)) {
+            let batch = 40 + r.below(160);
+            let mut this: Vec<u64> = vec![];
+            for _ in 0..batch {
+                let f = if !recent.is_empty() && r.chance(1, 5) { recent[r.usize(recent.len())] } else { r.below(pool) };
+                let d = if r.chance(15, 16) { 0 } else { r.below(4) };
+                let q = if r.chance(19, 20) { 1 } else { 0 };
+                writeln!(out, "intern {} {} {}", d, q, f).unwrap();
+                this.push(f);
+                // ask a value of this revision again at once
+                if r.chance(1, 6) {
+                    let g = this[r.usize(this.len())];
+                    writeln!(out, "intern 0 1 {}", g).unwrap();
+                }
+            }
+            recent = this;
+            cur += 1 + if r.chance(1, 3) { r.below(3) as usize } else { 0 };
+            writeln!(out, "rev {}", cur).unwrap();
+        }
+    }
+}
+
 fn main() {
     let args = Args::from_env();
     std::panic::set_hook(Box::new(|_| {}));
@@ -360,6 +391,7 @@ fn main() {
                 "lru" => gen_lru(&mut r, n, &mut w),
                 "rq" => gen_rq(&mut r, n, &mut w),
                 "intern" => gen_intern(&mut r, n, &mut w),
+                "internnat" => gen_intern_nat(&mut r, n, &mut w),
                 _ => std::process::exit(2),
             }
         }
@@ -370,7 +402,7 @@ fn main() {
             match model.as_str() {
                 "lru" => run_lru(&text, &mut w),
                 "rq" => run_rq(&text, &mut w),
-                "intern" => run_intern(&text, &mut w),
+                "intern" | "internnat" => run_intern(&text, &mut w),
                 _ => std::process::exit(2),
             }
         }
